@@ -160,16 +160,13 @@ def replay (F : TOps) : List Nat → St → Nat → List Snap
 /-! ## Part 2: delivery of an error through the call stack -/
 
 /-- One VM frame as far as unwinding is concerned. `catches` = `catch_stack` (innermost handler
-first; a handler is identified by a number), `barrier` = `execution_barrier`. `stringifies`
-(meaningful on barrier frames) describes the native code that started the entry: it replaces
-*every* error of the entry by a string error — `run_display` / `run_debug_op` do so
-(`Err(_) => runtime_error!("failed to get display value")`) when a container is rendered whose
-element has a Koto `@display` (finding F-C08-4); all other native callers hand the error on
-unchanged. -/
+first; a handler is identified by a number), `barrier` = `execution_barrier`. The native code that
+starts an entry hands the entry's error on unchanged: the two callers that used to replace it by a
+string error (`run_display` / `run_debug_op`, F-C08-4 / F-C04-12) do so no longer (5d8bf61, 9cbdb4e),
+and no other caller in the runtime maps or drops it. -/
 structure Frame where
   catches : List Nat
   barrier : Bool
-  stringifies : Bool := false
   deriving Repr, DecidableEq
 
 /-- the two kinds of error that matter for delivery -/
@@ -199,17 +196,12 @@ def ErrKind.allowCatch : ErrKind → Bool
   | .timeout => false
   | .other => true
 
-/-- the kind of the error after the native caller of the entry whose barrier frame is `f` has
-handled it -/
-def Frame.cross (f : Frame) (kind : ErrKind) : ErrKind :=
-  if f.stringifies then .other else kind
-
 /-- The whole path of an error raised in the top entry with the given `allowCatch` (`false` for a
 timeout reported by the poller, `kind.allowCatch` for a failing instruction): `unwind`; on `Err` the
 entry's caller pops the barrier frame (`pop_frame`) and returns the error to the native code that
-started the entry; that code hands it on (kind preserved, unless it `stringifies`), so the
-instruction of the enclosing entry that called the native code fails and `execute_instructions`
-runs `pop_call_stack_on_error(error, kind'.allowCatch)` with the kind `kind'` it received. `fuel` bounds the number of entries crossed (the
+started the entry; that code hands it on with its kind, so the instruction of the enclosing entry
+that called the native code fails and `execute_instructions` runs
+`pop_call_stack_on_error(error, kind.allowCatch)`. `fuel` bounds the number of entries crossed (the
 stack length suffices). -/
 def deliver : Nat → ErrKind → Bool → List Frame → Delivery
   | 0, kind, _, _ => .escaped kind
@@ -217,8 +209,8 @@ def deliver : Nat → ErrKind → Bool → List Frame → Delivery
     match unwind allowCatch stack with
     | (some h, rest) => .caught h rest.length
     | (none, []) => .escaped kind
-    | (none, f :: []) => .escaped (f.cross kind)  -- outermost entry (host call): error returned to the host
-    | (none, f :: below) => deliver fuel (f.cross kind) (f.cross kind).allowCatch below
+    | (none, _ :: []) => .escaped kind            -- outermost entry (host call): error returned to the host
+    | (none, _ :: below) => deliver fuel kind kind.allowCatch below
 
 /-- The same path as one structural recursion (proved equal to `deliver` in `Lemmas/C08`). -/
 def deliverFlat : ErrKind → Bool → List Frame → Delivery
@@ -227,7 +219,7 @@ def deliverFlat : ErrKind → Bool → List Frame → Delivery
     match allowCatch, f.catches with
     | true, h :: _ => .caught h (f :: rest).length
     | _, _ =>
-      if f.barrier then deliverFlat (f.cross kind) (f.cross kind).allowCatch rest
+      if f.barrier then deliverFlat kind kind.allowCatch rest
       else deliverFlat kind allowCatch rest
 
 /-- A timeout detected (by the poller) in the top entry. -/
